@@ -128,12 +128,12 @@ def run(cx):
         b = R.body("client::Client::handle_events")
         fa = cx.fa(b)
         sends = [(loc, "client resend in Closing") for loc, lab in call_sites(b, "UdpSocket::send") if dnf_holds(fa.at(loc), [[r"is\(arg1\.state,Closing\)"]])[0]]
-        tos = [(loc, "client Error(Timeout) in Closing") for loc, lab in event_pushes(b, r"Error\{.*Timeout") if dnf_holds(fa.at(loc), [[r"is\(arg1\.state,Closing\)"]])[0]]
-        if not sends or not tos:
+        seen = cx.guard_cases(inst, b, event_pushes(b, r"Error\{.*Timeout"),
+                              [("Closing", r"is\(arg1\.state,Closing\)", [r"eq\(0,arg1\.state@Closing\.0\.resend_count\)", r"le\(arg1\.state@Closing\.0\.resend_time_ms,arg2\)"])],
+                              "client disconnect timeout guard", why="the closing side may give up only after all retries are used and the last interval elapsed", fa=fa)
+        if not sends or "Closing" not in seen:
             inst.violation(b.path, "Closing arm", "the Closing arm of the client's timer has no resend or no timeout (anchor)")
         cx.guard(inst, b, sends, [[r"ne\(0,[\w.@]+\.resend_count\)", r"le\([\w.@]+\.resend_time_ms,arg2\)"]], construct="client disconnect resend guard")
-        cx.guard(inst, b, tos, [[r"eq\(0,[\w.@]+\.resend_count\)", r"le\([\w.@]+\.resend_time_ms,arg2\)"]], construct="client disconnect timeout guard",
-                 why="the closing side may give up only after all retries are used and the last interval elapsed")
         he = R.body("server::Server::handle_event")
         fah = cx.fa(he)
         sends = [(loc, "server resend in Closing") for loc, lab in call_sites(he, "UdpSocket::send_to") if dnf_holds(fah.at(loc), [[r"is\(.*\.state,Closing\)"]])[0]]
